@@ -9,6 +9,9 @@ contain the owner / delegate / delegated-amount atoms; Pinocchio slot labelling
 equals the Anchor struct; the Pinocchio token view has SPL's layout.
 Also decided: the Pinocchio token-account loader checks the owner against SPL's two program ids on every
 success path;
+Also decided: the multisig / length / initialised tests of that loader lie on every success path; the permissionless migration only reaches
+reward_infos[1] and [2] through literal indices; the delegated fee authority is confined to adaptive-fee pools (constraint, its test and the
+seed's little-endian encoding).
 Not decided: run-time facts about which keys hold which tokens."""
 import re
 from analysis import cfg, atoms as A, accounts as ACC, program, pino, writes
